@@ -21,6 +21,9 @@ package scheduling
 //@ pure hasBound(r *Requirement) bool = r.gte != nil || r.lte != nil
 //@ pure lostExclusion(r *Requirement) bool = r.complement && hasBound(r) && (exists x string {x in r.values} :: (x in r.values) && inB(x, r.gte, r.lte))
 
+// [overadmit] is what the code does (exact); [roundtrip] is what C13 demands. They differ exactly on lostExclusion:
+// [roundtrip].outside (= [roundtrip-weak]) is proved, [lost] proves that [roundtrip] is FALSE for every input in
+// the region (finding C13-bound-drops-exclusions, see known_findings_proposed.json). Callers assume [roundtrip].
 //@ func (*Requirement).NodeSelectorRequirement
 //@   prop C13
 //@   requires [inv] reqInv(r)
@@ -85,8 +88,12 @@ package scheduling
 //
 // Any draws rand.Intn(anyHi - anyLo) + anyLo for a complement requirement. rand.Intn panics for a non-positive
 // argument. The engine's ints are mathematical, so the absence of overflow in `*r.lte + 1` and `max - min` is
-// stated by hand ([nooverflow]); with wrap-around arithmetic the draw width is only meaningful then.
-// anyOK is the weakest precondition (over mathematical ints) for: no panic, no overflow.
+// stated by hand inside anyOK (`*r.lte < MaxInt64`, `anyHi - anyLo <= MaxInt64`); the engine proves sufficiency of
+// anyOK, and `anyLo < anyHi` is necessary (dropping it makes safe.call.rand.Intn fail). With Go's wrap-around one
+// overflowing sub-case happens not to panic (Gte n>=1 together with Lte MaxInt64); anyOK excludes it all the same.
+// The returned string is fmt.Sprint(n), for which the engine has no model (arbitrary string): [drawn] therefore
+// speaks about the drawn integer n, not about the result; admits(r, result) for complement requirements is NOT
+// decided (and is false when n happens to spell a member of a non-empty exclusion list).
 //@ pure anyLo(r *Requirement) int = (r.gte == nil ? 0 : *r.gte)
 //@ pure anyHi(r *Requirement) int = (r.lte == nil ? math.MaxInt64 : *r.lte + 1)
 //@ pure anyOK(r *Requirement) bool = r.complement ==> ((r.lte != nil ==> *r.lte < math.MaxInt64) && anyLo(r) < anyHi(r) && anyHi(r) - anyLo(r) <= math.MaxInt64)
@@ -104,9 +111,66 @@ package scheduling
 //
 // validatedBounds: all that NodePool validation (ValidateRequirement: bound operands are integers >= 0) plus the
 // constructors (Gt n -> gte n+1, Lt n -> lte n-1, Gt MaxInt -> DoesNotExist, Intersection collapses gte > lte)
-// guarantee about the bounds. anyOK does NOT follow from it: see lemma-like clause list in the report
-// (Lt 0; Lte MaxInt64; Gte MaxInt64 / Gt MaxInt64-1).
+// guarantee about the bounds. anyOK does NOT follow from it (lemma anyUnsafeValidated below).
 //@ pure validatedBounds(r *Requirement) bool = (r.gte != nil ==> (0 <= *r.gte && *r.gte <= math.MaxInt64)) && (r.lte != nil ==> (0 - 1 <= *r.lte && *r.lte <= math.MaxInt64)) && ((r.gte != nil && r.lte != nil) ==> *r.gte <= *r.lte)
 // The validated requirements on which Any is NOT safe are exactly: `Lt 0` alone (lte == -1, no lower bound),
 // any upper bound `Lte MaxInt64`, and a lone lower bound `Gte MaxInt64` (or `Gt MaxInt64-1`).
 //@ lemma anyUnsafeValidated [C13]: forall r *Requirement :: (reqInv(r) && validatedBounds(r)) ==> (!anyOK(r) <==> (r.complement && ((r.lte != nil && *r.lte == math.MaxInt64) || (r.gte == nil && r.lte != nil && *r.lte == 0 - 1) || (r.lte == nil && r.gte != nil && *r.gte == math.MaxInt64))))
+
+// ---- how requirement sets are built (justifies the preconditions rsInv / rsKeyed of the serialization) ----
+//
+// Requirements.Add stores, under the requirement's own key, the requirement itself (new key) or its
+// intersection with the requirement already stored. Keys are assumed normalized (every constructor normalizes).
+//
+// MERGE NOTE: the C17 draft (/verif/drafts/C17/pkg/scheduling/zz_contracts_C17_verif.go) also puts
+// (Requirements).Add under contract, with the same preconditions and [inv]/[keys]/[untouched] clauses and a more
+// general [admits] clause. A function can have one contract only: when both drafts are merged, delete the block
+// between BEGIN-ADD and END-ADD below and append the four lines marked (C13+) to C17's contract
+// (checked: C13, C17 and C12 all stay green with that merge).
+//@ pure reqsOK(xs []*Requirement) bool = forall j int {xs[j]} :: (0 <= j && j < len(xs)) ==> (reqInv(xs[j]) && allocated(xs[j]) && !(xs[j].Key in v1.NormalizedLabels))
+//@ pure keyAmong(xs []*Requirement, n int, k string) bool = exists j int {xs[j]} :: 0 <= j && j < n && xs[j].Key == k
+
+// BEGIN-ADD
+//@ func (Requirements).Add
+//@   prop C13
+//@   requires [inv] r != nil && rsInv(r)
+//@   requires [args] reqsOK(requirements)
+//@   modifies r[:]
+//@   nopanic
+//@   ensures [inv] rsInv(r)
+//@   ensures [keys] forall k string {k in r} :: (k in r) <==> (old(k in r) || keyAmong(requirements, len(requirements), k))
+//@   ensures [untouched] forall k string {k in r} :: (old(k in r) && !keyAmong(requirements, len(requirements), k)) ==> r[k] == old(r[k])
+//@   ensures [single] len(requirements) == 1 ==> (forall v string :: admits(r[requirements[0].Key], v) <==> (admits(requirements[0], v) && (old(requirements[0].Key in r) ==> admits(old(r[requirements[0].Key]), v))))
+//@   ensures [keyed] old(rsKeyed(r)) ==> rsKeyed(r)                                                                                   // (C13+)
+//@   ensures [single-new] (len(requirements) == 1 && !old(requirements[0].Key in r)) ==> r[requirements[0].Key] == requirements[0]    // (C13+)
+//@   loop 1 invariant [inv] rsInv(r)
+//@   loop 1 invariant [keys] forall k string {k in r} :: (k in r) <==> (old(k in r) || keyAmong(requirements, $i + 1, k))
+//@   loop 1 invariant [untouched] forall k string {k in r} :: (old(k in r) && !keyAmong(requirements, $i + 1, k)) ==> r[k] == old(r[k])
+//@   loop 1 invariant [single] ($i == 0) ==> (forall v string :: admits(r[requirements[0].Key], v) <==> (admits(requirements[0], v) && (old(requirements[0].Key in r) ==> admits(old(r[requirements[0].Key]), v))))
+//@   loop 1 invariant [keyed] old(rsKeyed(r)) ==> rsKeyed(r)                                                                          // (C13+)
+//@   loop 1 invariant [single-new] ($i == 0 && !old(requirements[0].Key in r)) ==> r[requirements[0].Key] == requirements[0]          // (C13+)
+// END-ADD
+
+// NewRequirements folds Add over its arguments, starting from the empty set. When the arguments carry pairwise
+// distinct keys (as the values of a keyed requirement set do) the result stores exactly those objects.
+//@ pure distinctKeys(xs []*Requirement) bool = forall a int, b int {xs[a], xs[b]} :: (0 <= a && a < b && b < len(xs)) ==> xs[a].Key != xs[b].Key
+
+//@ func NewRequirements
+//@   prop C13
+//@   requires [args] reqsOK(requirements)
+//@   modifies nothing
+//@   nopanic
+//@   ensures [inv] fresh(result) && result != nil && rsInv(result) && rsKeyed(result)
+//@   ensures [keys] forall k string {k in result} :: (k in result) <==> keyAmong(requirements, len(requirements), k)
+//@   ensures [same] distinctKeys(requirements) ==> (forall j int {requirements[j]} :: (0 <= j && j < len(requirements)) ==> result[requirements[j].Key] == requirements[j])
+//@   loop 1 invariant [inv] fresh(r) && r != nil && rsInv(r) && rsKeyed(r)
+//@   loop 1 invariant [keys] forall k string {k in r} :: (k in r) <==> keyAmong(requirements, $i + 1, k)
+//@   loop 1 invariant [same] distinctKeys(requirements) ==> (forall j int {requirements[j]} :: (0 <= j && j <= $i) ==> r[requirements[j].Key] == requirements[j])
+
+// HasMinValues: some requirement carries a minValues floor.
+// (no precondition and no nopanic on purpose: InstanceTypes.Truncate, under contract for C19, calls it)
+//@ func (Requirements).HasMinValues
+//@   prop C13
+//@   modifies nothing
+//@   ensures [exact] result <==> (exists k string {k in r} :: (k in r) && r[k].MinValues != nil)
+//@   loop 1 invariant forall k string {seen(k)} :: seen(k) ==> r[k].MinValues == nil
